@@ -297,8 +297,23 @@ pub fn gen(out: &mut Out, thorough: bool, seed: u64) {
     }
     let mut results: Vec<String> = Vec::new();
     for h in handles { results.extend(h.join().unwrap()); }
+    // ---- WebSocket message decoder, sizes and counts well above small: floods of 1 000 … 200 000 (thorough: 1 000 000)
+    // control frames before / inside / after a message, messages of up to 10 000 (20 000) fragments, up to 10 000 (20 000)
+    // messages on one connection, payloads up to 1 MiB (4 MiB). C11's family (`c11::scale_cases`), each session in a worker
+    // process on a thread with the default 2 MiB stack, 30 s watchdog: a stack overflow is an ABORT here.
+    {
+        let scale = crate::c11::scale_cases(thorough, seed);
+        let rs = crate::c11::run_scale(&scale);
+        for ((tag, f), r) in scale.into_iter().zip(rs.into_iter()) {
+            for t in tag.split('|') {
+                out.count(&format!("sess:scale:{}", t));
+            }
+            cases.push(f);
+            results.push(r);
+        }
+    }
     for (c, r) in cases.iter().zip(results.iter()) {
-        out.count(&format!("{}:{}", c[0], if c[0] == "sess" { if r.contains("PANIC") { "PANIC" } else { "ran" } } else { r.split(' ').next().unwrap_or("?") }));
+        out.count(&format!("{}:{}", c[0], if c[0] == "sess" { if r.contains("PANIC") { "PANIC" } else if r == "ABORT" || r == "TIMEOUT" { r.as_str() } else { "ran" } } else { r.split(' ').next().unwrap_or("?") }));
         if r.contains("EXCESS") { out.count(&format!("{}:mem-excess", c[0])); }
         let fr: Vec<&str> = c.iter().map(|s| s.as_str()).collect();
         out.case(&fr, r, true);
